@@ -277,3 +277,20 @@ def compare(pc, a, b, stats=None, depth=0, axioms=()):
     if r == z3.sat:
         return [("differ", pc, se.s.model(), "bytes differ")]
     return [("unknown", pc, se.s.reason_unknown())]
+
+
+def check_sat(pc, extra, stats=None, depth=0):
+    """satisfiability of pc /\\ extra with hash abstraction; an `ite` over byte strings whose condition pc does not decide splits the query"""
+    try:
+        se = SeqEq(list(pc), stats=stats)
+        return se._check(*[se.abstract(e) for e in extra])
+    except NeedSplit as ns:
+        if depth > 8:
+            return z3.unknown
+        a = check_sat(list(pc) + [ns.cond], extra, stats, depth + 1)
+        if a == z3.sat:
+            return a
+        b = check_sat(list(pc) + [z3.Not(ns.cond)], extra, stats, depth + 1)
+        if b == z3.sat:
+            return b
+        return z3.unknown if z3.unknown in (a, b) else z3.unsat
